@@ -1,0 +1,23 @@
+//go:build verif
+
+package index
+
+import (
+	"context"
+
+	"github.com/ipld/go-storethehash/store/types"
+)
+
+// VerifGC runs one index GC cycle synchronously.
+func (index *Index) VerifGC(ctx context.Context, scanFree bool) (int64, int, error) {
+	return index.gc(ctx, scanFree)
+}
+
+// VerifBuckets returns a copy of the bucket table.
+func (index *Index) VerifBuckets() []types.Position {
+	index.bucketLk.RLock()
+	defer index.bucketLk.RUnlock()
+	out := make([]types.Position, len(index.buckets))
+	copy(out, index.buckets)
+	return out
+}
